@@ -8,17 +8,22 @@ package standard
 //@ type Service
 //@   guarded_by subscriptionInfosMutex: subscriptionInfos
 //@   guarded_by pendingAttestationsMutex: pendingAttestations
+//@   // the subscription information stored for an epoch holds non-nil entries with a duty (what the beacon committee
+//@   // subscriber returns, see its Subscribe contract); assumed of every state in which a method is entered
+//@   valid forall e phase0.Epoch, sl phase0.Slot, ci phase0.CommitteeIndex :: in(self.subscriptionInfos, e) && in(self.subscriptionInfos[e], sl) && in(self.subscriptionInfos[e][sl], ci) ==> self.subscriptionInfos[e][sl][ci] != nil && self.subscriptionInfos[e][sl][ci].Duty != nil
+//@   // established by New (parseAndCheckParameters rejects nil for these; the maps are made there)
+//@   valid self.chainTimeService != nil && self.scheduler != nil && self.attester != nil && self.validatingAccountsProvider != nil && self.attesterDutiesProvider != nil && self.proposerDutiesProvider != nil && self.beaconBlockProposer != nil && self.attestationAggregator != nil && self.beaconCommitteeSubscriber != nil && self.accountsRefresher != nil && self.blockToSlotSetter != nil && self.pendingAttestations != nil && self.subscriptionInfos != nil
+//@   confined activeValidators: after construction read and written only by the accounts refresher's periodic job (its run-time function and job function run on that job's goroutine and never overlap); not covered: New writes it once more after the tickers were started, a start-up window in which the refresher's first run-time computation may read it
+//@   confined lastBlockRoot, lastBlockEpoch, currentDutyDependentRoot, previousDutyDependentRoot: read and written only by HandleHeadEvent and its helper checkEventForReorg, which the events provider invokes sequentially on one goroutine
 //@
 //@ // wall-clock start of a slot in nanoseconds, as answered by the chain time service
 //@ spec func startOfSlotNs(slot phase0.Slot) int
 //@
 //@ func (*Service).AttestAndScheduleAggregate
 //@   requires s != nil && duty != nil && s.attester != nil && s.chainTimeService != nil && s.scheduler != nil && s.validatingAccountsProvider != nil
-//@   requires s.pendingAttestations != nil && unheld(s.pendingAttestationsMutex) && unheld(s.subscriptionInfosMutex)
+//@   requires s.pendingAttestations != nil && nolocks()
 //@   assumes call Attest#1 (atts, err): err == nil ==> forall k int :: 0 <= k && k < len(atts) ==> atts[k] != nil && atts[k].Data != nil
 //@   assumes call StartOfSlot (t): ns(t) == startOfSlotNs(arg0)
-//@   // the subscription information stored for an epoch holds non-nil entries with a duty
-//@   requires forall e phase0.Epoch, sl phase0.Slot, ci phase0.CommitteeIndex :: in(s.subscriptionInfos, e) && in(s.subscriptionInfos[e], sl) && in(s.subscriptionInfos[e][sl], ci) ==> s.subscriptionInfos[e][sl][ci] != nil && s.subscriptionInfos[e][sl][ci].Duty != nil
 //@   // C14: an aggregation job for exactly the attested slot and committee, at the slot start plus the aggregation delay,
 //@   // only for a committee in which the stored information says one of our validators is the aggregator
 //@   at call ScheduleJob#1: assert arg2 == sprintf("Beacon block attestation aggregation for slot %d committee %d", attestation.Data.Slot, attestation.Data.Index)
@@ -30,3 +35,20 @@ package standard
 //@   // C20: the pending mark of the slot is cleared on every exit
 //@   ensures !in(s.pendingAttestations, duty.slot)
 //@   ensures unheld(s.pendingAttestationsMutex) && unheld(s.subscriptionInfosMutex)
+
+//@
+//@ // ---- callers of the attestation job (C17 sweep of the whole package) ----
+//@ func (*Service).scheduleAttestations
+//@   // assumed of go-eth2-client: a successful answer carries data without nil entries (its own range check dereferences each)
+//@   assumes call AttesterDuties#1 (resp, err): err == nil ==> resp != nil && (forall k int :: 0 <= k && k < len(resp.Data) ==> resp.Data[k] != nil)
+//@   loop 1
+//@     invariant forall k int :: 0 <= k && k < len(attesterDuties) ==> attesterDuties[k] != nil
+//@     invariant forall k int :: 0 <= k && k < len(filteredDuties) ==> filteredDuties[k] != nil
+//@   loop 3
+//@     invariant forall k int :: 0 <= k && k < len(duties) ==> duties[k] != nil
+//@
+//@ func (*Service).scheduleAttestations$1
+//@   requires duty != nil
+//@
+//@ func (*Service).scheduleAttestations$1$1
+//@   requires duty != nil
